@@ -234,22 +234,31 @@ def hasUse (s : State) (p : Option Id) : Bool :=
     | some o => o.useLim
     | none => false
 
+/-- which flag sync `move_memlimit` asks `memlimit_walk` for -/
+def moveWalkOp (oldlim newlim : Bool) : WOp :=
+  if oldlim && !newlim then WOp.clear else if newlim && !oldlim then WOp.set else WOp.none
+
+/-- second half of `move_memlimit`: subtract from the old parent, add to the new one, fix the flag
+of the moved chunk -/
+def moveApply (cfg : Cfg) (fuel : Nat) (s1 : State) (t : Id) (newp oldp : Option Id)
+    (oldlim newlim : Bool) (delta : Nat) : State :=
+  let s2 := if oldlim then (applyLim cfg fuel s1 oldp (-(delta : Int)) true).getD s1 else s1
+  if newlim then
+    let s3 := (applyLim cfg fuel s2 newp (delta : Int) true).getD s2
+    s3.modify t fun x => { x with useLim := true }
+  else
+    match s2.get t with
+    | some o => if !o.hasLim then s2.modify t fun x => { x with useLim := false } else s2
+    | none => s2
+
 /-- `move_memlimit(t, new_parent, old_parent)` -/
 def moveMemlimit (cfg : Cfg) (s : State) (t : Id) (newp oldp : Option Id) : State :=
   let newlim := hasUse s newp
   let oldlim := hasUse s oldp
   if !oldlim && !newlim then s
   else
-    let op := if oldlim && !newlim then WOp.clear else if newlim && !oldlim then WOp.set else WOp.none
-    let (s1, delta) := walk cfg s.fuel s t op
-    let s2 := if oldlim then (applyLim cfg s.fuel s1 oldp (-(delta : Int)) true).getD s1 else s1
-    if newlim then
-      let s3 := (applyLim cfg s.fuel s2 newp (delta : Int) true).getD s2
-      s3.modify t fun x => { x with useLim := true }
-    else
-      match s2.get t with
-      | some o => if !o.hasLim then s2.modify t fun x => { x with useLim := false } else s2
-      | none => s2
+    let w := walk cfg s.fuel s t (moveWalkOp oldlim newlim)
+    moveApply cfg s.fuel w.1 t newp oldp oldlim newlim w.2
 
 /-! ## references -/
 
